@@ -31,3 +31,18 @@ EXTRA_SOURCES = [
     "v = 1, u = [[m, n] = [1, 2], [o] = 7, [p] = [8]], w = 3, [u, w, v]",
     "h = #'int { [0 = $, r = $], 6 =k, [k] }, [0 h, 1 h]",
 ]
+
+
+def vm_sources():
+    """C07 only (bytecode analysis + real traces; no language-model judgement): every term that produces a value
+    WITHOUT an input, in every position where a chain starts with no value flowing in -- in particular the fields
+    of tuple literals that also contain a spread, whose code generation counts the slots each field leaves
+    (seeded change C07-4: `! []` emitted nothing when no value flowed in, while its caller counted one slot)."""
+    terms = ["! []", "! [0]", "[]", "{ ! [] }", "{ [] ~> ! [] }", "5 ~> ! []", "[] ~> ! []", "Ok", "7", "0x01", "&.",
+             "#{ 1 }", "@#{ 1 }", "{ 1, ! [] }", "[! []]", "! [] ~> =q", "(! [])", "{ | ! [] | 3 }", "{ | [] => ! [] | 4 }"]
+    places = ["a = [1, 2], [...a, %s]", "a = [1, 2], [%s, ...a]", "a = [1, 2], [...a, %s, 3]", "a = [1, 2], [0, %s, ...a]",
+              "a = A[x: 1], A[...a, y: %s]", "a = A[x: 1], A[y: %s, ...a]", "a = A[x: 1], a[..., y: %s]",
+              "[1, 2] ~> [..., %s]", "[1, 2] ~> [%s, ...]", "a = [1, 2], b = [3], [...a, %s, ...b]",
+              "a = [1, 2], [...a, %s, %s]", "a = [1, 2], f = #{ [...a, %s] }, [] f", "a = [1, 2], y = 9, t = [...a, %s], [t, y]",
+              "[1, %s, 3]", "x = %s, [x]", "{ %s }", "f = #{ %s }, [] f", "y = 9, %s, y", "[[%s]]"]
+    return [p.replace("%s", t) for p in places for t in terms]
